@@ -126,15 +126,26 @@ def merge_functions(crate):
 
 
 def leader_union_functions(crate):
-    """union_leaders: calls a slot-set writer and Group::add"""
+    """union_leaders: the function that can shrink either of its two invocation parameters (it calls a
+    slot-set writer with two different parameters as the subject)"""
+    key = "leader_union_functions"
+    if key in crate._cache:
+        return crate._cache[key]
     sw = set(slot_writers(crate))
     out = []
     for b in crate.fns():
         if b.id in sw:
             continue
-        if calls_to(crate, b, sw) and [c for c in b.all_calls() if c.callee and c.callee.is_("add", "group::Group")]:
+        subj = set()
+        for c in calls_to(crate, b, sw):
+            if c.body is b and len(c.args) > 1:
+                r = strip_role(b.role_of_operand(c.args[1]))
+                if isinstance(r, tuple) and r[0] == "param":
+                    subj.add(r[1])
+        if len(subj) >= 2:
             out.append(b.id)
-    return sorted(out)
+    crate._cache[key] = sorted(out)
+    return crate._cache[key]
 
 
 def need(setname, members, n=1, exact=False):
@@ -452,4 +463,67 @@ def lift_param(crate, fn_id, pname, top_ids, depth=0):
             r = strip_role(b.role_of_operand(c.args[pidx - 1]))
             if isinstance(r, tuple) and r[0] == "param":
                 out |= lift_param(crate, b.id, r[1], top_ids, depth + 1)
+    return out
+
+
+# ---------------------------------------------------------------------------- leader-union region (robust to helper extraction)
+def leader_helpers(crate):
+    """functions called (transitively) from the leader union that cannot reach it again and are neither
+    slot writers nor part of the merge region: branch bodies that were extracted into helpers"""
+    key = "leader_helpers"
+    if key in crate._cache:
+        return crate._cache[key]
+    leaders = set(leader_union_functions(crate))
+    sw = set(slot_writers(crate))
+    reg = set(merge_region(crate)["members"])
+    fns = {b.id: b for b in crate.fns()}
+    out = set()
+    work = list(leaders)
+    while work:
+        f = work.pop()
+        b = fns.get(f)
+        if b is None:
+            continue
+        for c in b.all_calls():
+            t = c.callee.target if c.callee else None
+            if t in fns and t not in leaders and t not in out and t not in sw and t not in reg:
+                tb = fns[t]
+                if not (tb.argc >= 1 and tb.local_ty(1).startswith("&mut egraph::EGraph<")):
+                    continue
+                if leaders & crate.reachable_from([t], resolve_traits=False):
+                    continue
+                out.add(t)
+                work.append(t)
+    crate._cache[key] = sorted(out)
+    return crate._cache[key]
+
+
+def leader_add_sites(crate):
+    """Group::add sites on a class group inside the leader union or one of its helpers:
+    [{'call': CallSite, 'body': Body, 'leader': Body, 'conds': [cond...] (local + at the helper's call site in
+      the leader), 'pmap': {helper param name: leader param name}}]"""
+    out = []
+    leaders = leader_union_functions(crate)
+    helpers = leader_helpers(crate)
+    for lid in leaders:
+        lb = crate.bodies[lid]
+        for fid in [lid] + list(helpers):
+            fb = crate.bodies[fid]
+            for c in fb.calls:
+                if not (c.callee and c.callee.is_("add", "group::Group")) or fb.blocks[c.bb]["cleanup"]:
+                    continue
+                conds = [cond for e, cond in conditions_at(fb, c.bb)]
+                pmap = {fb.var_names.get(i): fb.var_names.get(i) for i in range(1, fb.argc + 1)}
+                if fid != lid:
+                    sites = [x for x in lb.calls if x.callee and x.callee.target == fid and not lb.blocks[x.bb]["cleanup"]]
+                    if len(sites) != 1:
+                        continue
+                    cs = sites[0]
+                    conds = conds + [cond for e, cond in conditions_at(lb, cs.bb)]
+                    pmap = {}
+                    for i in range(1, fb.argc + 1):
+                        r = strip_role(lb.role_of_operand(cs.args[i - 1])) if i - 1 < len(cs.args) else None
+                        if isinstance(r, tuple) and r[0] == "param":
+                            pmap[fb.var_names.get(i)] = r[1]
+                out.append({"call": c, "body": fb, "leader": lb, "conds": conds, "pmap": pmap})
     return out
